@@ -23,19 +23,28 @@ Definition negotiate (c : cfg) (remote : Z) : cfg :=
            else Z.min (max_idle c) remote in
   mkcfg m (defer c) (suitable_hb m).
 
-Record timer := mktm { hb_times : Z; last_eff : option Z; idle_begin : option Z }.
-Definition timer_new : timer := mktm 0 None None.
+(* sent_since: an effective (ack-eliciting payload) packet has been sent since the last packet was
+   received (RFC 9000 10.1; the repair of F65) *)
+Record timer := mktm { hb_times : Z; last_eff : option Z; idle_begin : option Z; sent_since : bool }.
+Definition timer_new : timer := mktm 0 None None false.
 
 Inductive content := NonAckEliciting | JustPing | EffectivePayload.
 Definition effective (c : content) : bool := match c with EffectivePayload => true | _ => false end.
 
+(* only the FIRST effective packet sent after a receive restarts the idle period *)
 Definition on_sent (t : timer) (c : content) (now : Z) : timer :=
-  if effective c then mktm 0 (Some now) None else t.
+  if effective c && negb (sent_since t) then mktm 0 (Some now) None true else t.
+
+(* the rule before the repair of F65: EVERY effective packet sent restarts the idle period, so an
+   endpoint retransmitting into a dead network never times out (kept for the regression Example) *)
+Definition on_sent_f65 (t : timer) (c : content) (now : Z) : timer :=
+  if effective c then mktm 0 (Some now) None (sent_since t) else t.
 
 Definition on_rcvd (t : timer) (c : content) (now : Z) : timer :=
-  let t1 := if effective c then mktm 0 (Some now) None else t in
+  let t1 := if effective c then mktm 0 (Some now) None false
+            else mktm (hb_times t) (last_eff t) (idle_begin t) false in
   match idle_begin t1 with
-  | Some _ => mktm (hb_times t1) (last_eff t1) (Some now)
+  | Some _ => mktm (hb_times t1) (last_eff t1) (Some now) false
   | None => t1
   end.
 
@@ -57,11 +66,11 @@ Definition health (c : cfg) (t : timer) (now : Z) : timer * outcome :=
     let elapsed := now - t0 in
     if defer c <? elapsed then
       match idle_begin t with
-      | None => (mktm (hb_times t) (last_eff t) (Some now), HPing)     (* heartbeat for the last time *)
+      | None => (mktm (hb_times t) (last_eff t) (Some now) (sent_since t), HPing)   (* heartbeat for the last time *)
       | Some _ => health_tail c t now
       end
     else if hb_interval c * (hb_times t + 1) <? elapsed then
-      (mktm (hb_times t + 1) (last_eff t) (idle_begin t), HPing)
+      (mktm (hb_times t + 1) (last_eff t) (idle_begin t) (sent_since t), HPing)
     else health_tail c t now
   | None => health_tail c t now
   end.
@@ -84,13 +93,15 @@ Definition ev_exec (s : st) (evs : list ev) : st := fold_left (fun s e => fst (e
 
 Definition st_init (m d : Z) : st := mkst 0 (cfg_new m d) timer_new.
 
-(* specification-side bookkeeping, independent of the timer: when was the last effective payload
-   sent or received, when was the last packet of any kind received *)
-Record ghost := mkgh { g_last_eff : option Z; g_last_rcvd : option Z }.
+(* specification-side bookkeeping, independent of the timer (RFC 9000 10.1): the idle period is
+   restarted by a received packet with effective payload and by the FIRST effective packet sent
+   after a receive; besides, when was the last packet of any kind received *)
+Record ghost := mkgh { g_last_eff : option Z; g_last_rcvd : option Z; g_sent : bool }.
+Definition ghost_init : ghost := mkgh None None false.
 Definition ghost_step (now : Z) (g : ghost) (e : ev) : ghost :=
   match e with
-  | ESent c => if effective c then mkgh (Some now) (g_last_rcvd g) else g
-  | ERcvd c => mkgh (if effective c then Some now else g_last_eff g) (Some now)
+  | ESent c => if effective c && negb (g_sent g) then mkgh (Some now) (g_last_rcvd g) true else g
+  | ERcvd c => mkgh (if effective c then Some now else g_last_eff g) (Some now) false
   | _ => g
   end.
 Fixpoint ghost_run (s : st) (g : ghost) (evs : list ev) : ghost :=
@@ -99,13 +110,23 @@ Fixpoint ghost_run (s : st) (g : ghost) (evs : list ev) : ghost :=
   | e :: r => ghost_run (fst (ev_step s e)) (ghost_step (s_now s) g e) r
   end.
 
-(* only health checks, clock advances and sent packets that carry no effective payload *)
+(* nothing is received and nothing is renegotiated: health checks, clock advances and packets WE send,
+   whatever they carry (retransmissions included) *)
 Definition quiet_ev (e : ev) : bool :=
   match e with
-  | EAdv _ | EHealth => true
-  | ESent c => negb (effective c)
+  | EAdv _ | EHealth | ESent _ => true
   | _ => false
   end.
+Definition not_eff_send (e : ev) : bool :=
+  match e with ESent c => negb (effective c) | _ => true end.
+
+(* the history of F65 under the rule before the repair *)
+Definition ev_step_f65 (s : st) (e : ev) : st :=
+  match e with
+  | ESent c => mkst (s_now s) (s_cfg s) (on_sent_f65 (s_tm s) c (s_now s))
+  | _ => fst (ev_step s e)
+  end.
+Definition ev_exec_f65 (s : st) (evs : list ev) : st := fold_left ev_step_f65 evs s.
 
 (* ---------------------------------------------------------------- the stream *)
 Definition content_of (z : Z) : content :=
